@@ -60,6 +60,7 @@ func render(pm *openfgav1.AuthorizationModel, source bool) (out string, errs str
 	if err != nil {
 		return "", "error: " + err.Error()
 	}
+	keepOutput(s)
 	return s, ""
 }
 
@@ -80,6 +81,7 @@ func renderJSON(js string, source bool) (out string, errs string) {
 	if err != nil {
 		return "", "error: " + err.Error()
 	}
+	keepOutput(*s)
 	return *s, ""
 }
 
@@ -262,7 +264,36 @@ func stripComments(dsl string) string {
 
 func (c *renderCtx) check(cfg simrt.Config) ([]mismatch, simrt.Stats, string) {
 	mm, st, summary := c.check0(cfg)
+	if msg := keptOutputsChanged(); msg != "" {
+		mm = append(mm, mismatch{"C14", "render.changed_later", "", msg})
+	}
 	return settleAborted([]string{"C14"}, false, mm, st), st, summary
+}
+
+// Every string the printer has returned in this workload is kept as returned
+// (no copy) next to a private copy: an output that aliases memory the printer
+// goes on using (a pooled buffer behind an unsafe string) changes when a later
+// call renders something else - the plain and the commented form of one model
+// differ in length and content.
+type keptOutput struct{ got, copy string }
+
+var keptOutputs []keptOutput
+
+func keepOutput(s string) {
+	if len(keptOutputs) < 256 {
+		keptOutputs = append(keptOutputs, keptOutput{s, strings.Clone(s)})
+	}
+}
+
+func keptOutputsChanged() string {
+	for i := range keptOutputs {
+		if k := &keptOutputs[i]; k.got != k.copy {
+			msg := "a DSL text returned by an earlier call changed after the call returned (it aliases memory the printer went on using): " + diffAt(k.copy, k.got)
+			keptOutputs = nil
+			return msg
+		}
+	}
+	return ""
 }
 
 func (c *renderCtx) check0(cfg simrt.Config) ([]mismatch, simrt.Stats, string) {
@@ -518,6 +549,7 @@ func poisonModel(r *rng, m *Model) string {
 
 func renderRunOne(b *BatchResult, prop string, seed, run uint64, nRandom int) {
 	r := newRNG(seed, hashStr("rendersim"), hashStr(prop), run)
+	keptOutputs = nil
 	m := genRenderModel(r)
 	poison := ""
 	if r.chance(8) {
